@@ -65,6 +65,15 @@ def compile_db(scratch):
                 continue
             flags.append(a)
         units[f] = {"file": f, "dir": e["directory"], "flags": flags}
+    # Members of the grid class templates that no product translation unit instantiates (e.g. uspg_3d::get_grid_content) are
+    # part of the grids' interface all the same: one synthetic unit instantiates both templates explicitly, with the flags of a
+    # product unit that is built with OpenMP, so that every member is parsed, resolved and analysed like product code.
+    donor = next((u for u in units.values() if "-fopenmp" in u["flags"] and "contact_models" in u["file"]), None) or next((u for u in units.values() if "-fopenmp" in u["flags"]), None)
+    if donor is not None and os.path.exists(os.path.join(REPO, "include", "uspg", "uspg_3d.hpp")):
+        syn = os.path.join(scratch, "sc3d_grid_instances.cpp")
+        with open(syn, "w") as fh:
+            fh.write('#include "uspg_3d.hpp"\n#include "uspg_4d.hpp"\ntemplate class uspg_3d<unsigned short>;\ntemplate class uspg_4d<int>;\n')
+        units[syn] = {"file": syn, "dir": donor["dir"], "flags": list(donor["flags"]) + ["-I" + os.path.join(REPO, "include", "uspg"), "-I" + os.path.join(REPO, "include", "math_modules"), "-I" + os.path.join(REPO, "include")], "synthetic": True}
     if len(units) < 20:
         raise AnalysisBroken("compile database lists only %d product translation units" % len(units))
     return [units[k] for k in sorted(units)]
@@ -72,7 +81,8 @@ def compile_db(scratch):
 
 def _extract_one(unit, cfg, outdir):
     cm, dm = cfg
-    out = os.path.join(outdir, "cm%d_dm%d__%s.json" % (cm, dm, os.path.relpath(unit["file"], REPO).replace(os.sep, "__")))
+    relname = os.path.basename(unit["file"]) if unit.get("synthetic") else os.path.relpath(unit["file"], REPO)
+    out = os.path.join(outdir, "cm%d_dm%d__%s.json" % (cm, dm, relname.replace(os.sep, "__")))
     flags = [a for a in unit["flags"]]
     if not any(a.startswith("-std=") for a in flags):
         flags.append("-std=gnu++17")
@@ -90,6 +100,7 @@ def _tree_key():
     import hashlib
     h = hashlib.sha1()
     h.update(REPO.encode())
+    h.update(b"units-v2")
     h.update(str(os.path.getmtime(EXTRACT)).encode())
     for cmd in (["git", "-C", REPO, "rev-parse", "HEAD"], ["git", "-C", REPO, "diff", "HEAD"],
                 ["git", "-C", REPO, "ls-files", "--others", "--exclude-standard"]):
